@@ -1,7 +1,847 @@
-From Coq Require Import List ZArith NArith Bool Lia.
+(* C15 - lemmas about the profiler model (Model/C15.v), generic in the value type. *)
+From Coq Require Import List ZArith NArith Bool Lia Permutation Sorted.
 From Orso Require Import Gen.C15_Profiler Model.C15.
 Import ListNotations.
 Open Scope Z_scope.
 
+(* ---------- specifications the theorems are stated against ---------- *)
+
+(* the value order is a total order whose == is equality *)
+Definition total_order {A : Type} (leb eqb : A -> A -> bool) : Prop :=
+  (forall a b, eqb a b = true <-> a = b) /\
+  (forall a b, leb a b = true \/ leb b a = true) /\
+  (forall a b c, leb a b = true -> leb b c = true -> leb a c = true) /\
+  (forall a b, leb a b = true -> leb b a = true -> a = b).
+
+(* occurrences of v in d *)
+Definition occ {A : Type} (eqb : A -> A -> bool) (v : A) (d : list A) : Z := zlen (filter (eqb v) d).
+
+Definition sumz (l : list Z) : Z := fold_right Z.add 0 l.
+
+(* order / transitions, read off the data: adjacent pairs that differ, rise, fall *)
+Fixpoint trans_count {A : Type} (eqb : A -> A -> bool) (x : A) (xs : list A) : Z :=
+  match xs with
+  | [] => 0
+  | y :: r => (if eqb y x then 0 else 1) + trans_count eqb y r
+  end.
+Fixpoint has_up {A : Type} (leb : A -> A -> bool) (x : A) (xs : list A) : bool :=
+  match xs with
+  | [] => false
+  | y :: r => ltb leb x y || has_up leb y r
+  end.
+Fixpoint has_down {A : Type} (leb : A -> A -> bool) (x : A) (xs : list A) : bool :=
+  match xs with
+  | [] => false
+  | y :: r => ltb leb y x || has_down leb y r
+  end.
+Definition order_spec {A : Type} (leb : A -> A -> bool) (x : A) (xs : list A) : option Z :=
+  match has_up leb x xs, has_down leb x xs with
+  | false, false => None          (* all values equal *)
+  | true, false => Some 1         (* never falls *)
+  | false, true => Some (-1)      (* never rises *)
+  | true, true => Some 0
+  end.
+
+(* the additive fields of a sum, from the additive fields of its operands *)
+Definition quad_add (a b : Z * Z * option Z * option Z) : Z * Z * option Z * option Z :=
+  let '(c1, m1, lo1, hi1) := a in
+  let '(c2, m2, lo2, hi2) := b in
+  (c1 + c2, m1 + m2, opt_min lo1 lo2, opt_max hi1 hi2).
+
+(* ---------- lists ---------- *)
 Lemma zlen_app {B} (a b : list B) : zlen (a ++ b) = zlen a + zlen b.
 Proof. unfold zlen. rewrite app_length. lia. Qed.
+
+Lemma zlen_nonneg {B} (a : list B) : 0 <= zlen a.
+Proof. unfold zlen. lia. Qed.
+
+Lemma zlen_cons {B} (x : B) (a : list B) : zlen (x :: a) = 1 + zlen a.
+Proof. unfold zlen. cbn [length]. lia. Qed.
+
+Lemma nonnull_app {B} (a b : list (option B)) : nonnull (a ++ b) = nonnull a ++ nonnull b.
+Proof. unfold nonnull. apply flat_map_app. Qed.
+
+Lemma nonnull_missing {B} (c : list (option B)) :
+  zlen c - zlen (nonnull c) = zlen (filter is_none c).
+Proof.
+  induction c as [|o c IH]; [reflexivity|].
+  destruct o as [x|]; cbn [nonnull flat_map filter is_none app] in *;
+    fold (nonnull c); rewrite ?zlen_cons; lia.
+Qed.
+
+Lemma nonnull_all_none {B} (c : list (option B)) :
+  nonnull c = [] <-> forall o, In o c -> o = None.
+Proof.
+  induction c as [|o c IH]; cbn [nonnull flat_map].
+  - split; [intros _ o []|reflexivity].
+  - fold (nonnull c). destruct o as [x|]; cbn [app].
+    + split; [discriminate|]. intro H. specialize (H (Some x) (or_introl eq_refl)). discriminate.
+    + rewrite IH. split.
+      * intros H o [<-|Ho]; auto.
+      * intros H o Ho. apply H. now right.
+Qed.
+
+Lemma In_nonnull {B} (c : list (option B)) (x : B) : In x (nonnull c) <-> In (Some x) c.
+Proof.
+  induction c as [|o c IH]; cbn [nonnull flat_map]; [tauto|].
+  fold (nonnull c). rewrite in_app_iff, IH. destruct o as [y|]; cbn [In].
+  - split; [intros [[->|[]]|H]; auto|intros [H|H]; [left; left; congruence|auto]].
+  - split; [intros [[]|H]; auto|intros [H|H]; [discriminate|auto]].
+Qed.
+
+Lemma In_skipn {B} n (l : list B) x : In x (skipn n l) -> In x l.
+Proof.
+  revert l. induction n as [|n IH]; intros l H; [exact H|].
+  destruct l as [|y l]; [destruct H|]. right. now apply IH.
+Qed.
+
+Lemma In_firstn {B} n (l : list B) x : In x (firstn n l) -> In x l.
+Proof.
+  revert l. induction n as [|n IH]; intros l H; [destruct H|].
+  destruct l as [|y l]; [destruct H|]. destruct H as [->|H]; [now left|right; now apply IH].
+Qed.
+
+Section Generic.
+Variable A : Type.
+Variable leb : A -> A -> bool.
+Variable eqb : A -> A -> bool.
+Variable enc : A -> Z.
+Variable hash : A -> N.
+Variable E : Type.
+Variable np_hist : list A -> list (E * Z).
+Variable hist_merge : list (E * Z) -> list (E * Z) -> list (E * Z).
+
+Variable good : A -> Prop.              (* the values the encoding is monotone on (text: valid code points) *)
+
+Hypothesis ord : total_order leb eqb.
+Hypothesis enc_mono : forall a b, good a -> good b -> leb a b = true -> enc a <= enc b.
+
+Let eqb_eq : forall a b, eqb a b = true <-> a = b := proj1 ord.
+Let leb_total : forall a b, leb a b = true \/ leb b a = true := proj1 (proj2 ord).
+Let leb_trans : forall a b c, leb a b = true -> leb b c = true -> leb a c = true := proj1 (proj2 (proj2 ord)).
+Let leb_antisym : forall a b, leb a b = true -> leb b a = true -> a = b := proj2 (proj2 (proj2 ord)).
+
+Lemma leb_refl a : leb a a = true.
+Proof. destruct (leb_total a a); assumption. Qed.
+
+Lemma eqb_refl a : eqb a a = true.
+Proof. now apply eqb_eq. Qed.
+
+Lemma eqb_neq a b : eqb a b = false <-> a <> b.
+Proof.
+  split.
+  - intros H Heq. apply eqb_eq in Heq. congruence.
+  - intro H. destruct (eqb a b) eqn:Hab; [apply eqb_eq in Hab; contradiction|reflexivity].
+Qed.
+
+Lemma eqb_sym a b : eqb a b = eqb b a.
+Proof.
+  destruct (eqb a b) eqn:H1, (eqb b a) eqn:H2; try reflexivity.
+  - apply eqb_eq in H1. subst. rewrite eqb_refl in H2. discriminate.
+  - apply eqb_eq in H2. subst. rewrite eqb_refl in H1. discriminate.
+Qed.
+
+Lemma ltb_true a b : ltb leb a b = true -> leb a b = true.
+Proof.
+  unfold ltb. intro H. apply negb_true_iff in H.
+  destruct (leb_total a b) as [H1|H1]; [assumption|congruence].
+Qed.
+
+Lemma ltb_false a b : ltb leb a b = false -> leb b a = true.
+Proof. unfold ltb. intro H. now apply negb_false_iff in H. Qed.
+
+(* ---------- extremes ---------- *)
+Definition least (m : A) (d : list A) : Prop := In m d /\ forall y, In y d -> leb m y = true.
+Definition greatest (m : A) (d : list A) : Prop := In m d /\ forall y, In y d -> leb y m = true.
+
+Lemma min_fold xs : forall m,
+  let r := fold_left (fun m y => if ltb leb y m then y else m) xs m in
+  (r = m \/ In r xs) /\ leb r m = true /\ forall y, In y xs -> leb r y = true.
+Proof.
+  induction xs as [|y xs IH]; intro m; cbn [fold_left].
+  - split; [now left|]. split; [apply leb_refl|intros y []].
+  - destruct (ltb leb y m) eqn:Hlt.
+    + destruct (IH y) as (Hin & Hle & Hall). split; [|split].
+      * right. destruct Hin as [->|Hin]; [now left|now right].
+      * apply leb_trans with y; [assumption|now apply ltb_true].
+      * intros z [<-|Hz]; auto.
+    + destruct (IH m) as (Hin & Hle & Hall). split; [|split].
+      * destruct Hin as [->|Hin]; [now left|right; now right].
+      * assumption.
+      * intros z [<-|Hz]; auto. apply leb_trans with m; [assumption|now apply ltb_false].
+Qed.
+
+Lemma min_of_least x xs : least (min_of leb x xs) (x :: xs).
+Proof.
+  unfold min_of. destruct (min_fold xs x) as (Hin & Hle & Hall). split.
+  - destruct Hin as [->|Hin]; [now left|now right].
+  - intros y [<-|Hy]; auto.
+Qed.
+
+Lemma max_fold xs : forall m,
+  let r := fold_left (fun m y => if ltb leb m y then y else m) xs m in
+  (r = m \/ In r xs) /\ leb m r = true /\ forall y, In y xs -> leb y r = true.
+Proof.
+  induction xs as [|y xs IH]; intro m; cbn [fold_left].
+  - split; [now left|]. split; [apply leb_refl|intros y []].
+  - destruct (ltb leb m y) eqn:Hlt.
+    + destruct (IH y) as (Hin & Hle & Hall). split; [|split].
+      * right. destruct Hin as [->|Hin]; [now left|now right].
+      * apply leb_trans with y; [now apply ltb_true|assumption].
+      * intros z [<-|Hz]; auto.
+    + destruct (IH m) as (Hin & Hle & Hall). split; [|split].
+      * destruct Hin as [->|Hin]; [now left|right; now right].
+      * assumption.
+      * intros z [<-|Hz]; auto. apply leb_trans with m; [now apply ltb_false|assumption].
+Qed.
+
+Lemma max_of_greatest x xs : greatest (max_of leb x xs) (x :: xs).
+Proof.
+  unfold max_of. destruct (max_fold xs x) as (Hin & Hle & Hall). split.
+  - destruct Hin as [->|Hin]; [now left|now right].
+  - intros y [<-|Hy]; auto.
+Qed.
+
+(* the encoded least element of a union is the smaller of the encoded least elements *)
+Lemma least_app_enc m m1 m2 d1 d2 :
+  Forall good d1 -> Forall good d2 ->
+  least m (d1 ++ d2) -> least m1 d1 -> least m2 d2 -> enc m = Z.min (enc m1) (enc m2).
+Proof.
+  intros G1 G2 [Hin Hall] [Hin1 Hall1] [Hin2 Hall2].
+  rewrite Forall_forall in G1, G2.
+  assert (Gm : good m) by (apply in_app_or in Hin; destruct Hin; auto).
+  assert (H1 : enc m <= enc m1) by (apply enc_mono; auto; apply Hall, in_or_app; now left).
+  assert (H2 : enc m <= enc m2) by (apply enc_mono; auto; apply Hall, in_or_app; now right).
+  apply in_app_or in Hin. destruct Hin as [Hin|Hin].
+  - assert (enc m1 <= enc m) by (apply enc_mono; auto). lia.
+  - assert (enc m2 <= enc m) by (apply enc_mono; auto). lia.
+Qed.
+
+Lemma greatest_app_enc m m1 m2 d1 d2 :
+  Forall good d1 -> Forall good d2 ->
+  greatest m (d1 ++ d2) -> greatest m1 d1 -> greatest m2 d2 -> enc m = Z.max (enc m1) (enc m2).
+Proof.
+  intros G1 G2 [Hin Hall] [Hin1 Hall1] [Hin2 Hall2].
+  rewrite Forall_forall in G1, G2.
+  assert (Gm : good m) by (apply in_app_or in Hin; destruct Hin; auto).
+  assert (H1 : enc m1 <= enc m) by (apply enc_mono; auto; apply Hall, in_or_app; now left).
+  assert (H2 : enc m2 <= enc m) by (apply enc_mono; auto; apply Hall, in_or_app; now right).
+  apply in_app_or in Hin. destruct Hin as [Hin|Hin].
+  - assert (enc m <= enc m1) by (apply enc_mono; auto). lia.
+  - assert (enc m <= enc m2) by (apply enc_mono; auto). lia.
+Qed.
+
+(* ---------- profile_core: count, missing, extremes ---------- *)
+Notation core := (profile_core leb eqb enc hash E np_hist).
+
+Lemma core_count wh wo cnt dk d : p_count (core wh wo cnt dk d) = cnt.
+Proof. unfold profile_core. destruct d; reflexivity. Qed.
+
+Lemma core_missing wh wo cnt dk d : p_missing (core wh wo cnt dk d) = cnt - zlen d.
+Proof. unfold profile_core. destruct d; reflexivity. Qed.
+
+Lemma core_minimum wh wo cnt dk d :
+  match p_minimum (core wh wo cnt dk d) with
+  | None => d = []
+  | Some z => exists m, least m d /\ z = enc m
+  end.
+Proof.
+  unfold profile_core. destruct d as [|x xs]; cbn [p_minimum empty_profile]; [reflexivity|].
+  exists (min_of leb x xs). split; [apply min_of_least|reflexivity].
+Qed.
+
+Lemma core_maximum wh wo cnt dk d :
+  match p_maximum (core wh wo cnt dk d) with
+  | None => d = []
+  | Some z => exists m, greatest m d /\ z = enc m
+  end.
+Proof.
+  unfold profile_core. destruct d as [|x xs]; cbn [p_maximum empty_profile]; [reflexivity|].
+  exists (max_of leb x xs). split; [apply max_of_greatest|reflexivity].
+Qed.
+
+(* the minimum is below the encoding of every value, and is the encoding of one of them *)
+Lemma core_minimum_bound wh wo cnt dk d z :
+  Forall good d ->
+  p_minimum (core wh wo cnt dk d) = Some z ->
+  (exists m, In m d /\ enc m = z) /\ forall y, In y d -> z <= enc y.
+Proof.
+  intros G H. pose proof (core_minimum wh wo cnt dk d) as Hm. rewrite H in Hm.
+  rewrite Forall_forall in G.
+  destruct Hm as (m & [Hin Hall] & ->). split; [now exists m|]. intros y Hy. apply enc_mono; auto.
+Qed.
+
+Lemma core_maximum_bound wh wo cnt dk d z :
+  Forall good d ->
+  p_maximum (core wh wo cnt dk d) = Some z ->
+  (exists m, In m d /\ enc m = z) /\ forall y, In y d -> enc y <= z.
+Proof.
+  intros G H. pose proof (core_maximum wh wo cnt dk d) as Hm. rewrite H in Hm.
+  rewrite Forall_forall in G.
+  destruct Hm as (m & [Hin Hall] & ->). split; [now exists m|]. intros y Hy. apply enc_mono; auto.
+Qed.
+
+(* ---------- additivity ---------- *)
+Lemma quad_add_spec (p q : profile A E) :
+  quad (add eqb E hist_merge p q) = quad_add (quad p) (quad q).
+Proof. reflexivity. Qed.
+
+Lemma core_quad_app wh wo c1 c2 dk1 dk2 d1 d2 :
+  Forall good d1 -> Forall good d2 ->
+  quad (core wh wo (c1 + c2) (dk1 ++ dk2) (d1 ++ d2)) =
+  quad_add (quad (core wh wo c1 dk1 d1)) (quad (core wh wo c2 dk2 d2)).
+Proof.
+  intros G1 G2. unfold quad, quad_add. rewrite !core_count, !core_missing, zlen_app.
+  assert (Hmin : p_minimum (core wh wo (c1 + c2) (dk1 ++ dk2) (d1 ++ d2)) =
+                 opt_min (p_minimum (core wh wo c1 dk1 d1)) (p_minimum (core wh wo c2 dk2 d2))).
+  { destruct d1 as [|x1 r1]; [destruct d2 as [|x2 r2]; reflexivity|].
+    destruct d2 as [|x2 r2].
+    - rewrite app_nil_r. reflexivity.
+    - cbn [app profile_core p_minimum opt_min]. f_equal.
+      change (x1 :: r1 ++ x2 :: r2) with ((x1 :: r1) ++ x2 :: r2).
+      apply least_app_enc with (d1 := x1 :: r1) (d2 := x2 :: r2); auto; apply min_of_least. }
+  assert (Hmax : p_maximum (core wh wo (c1 + c2) (dk1 ++ dk2) (d1 ++ d2)) =
+                 opt_max (p_maximum (core wh wo c1 dk1 d1)) (p_maximum (core wh wo c2 dk2 d2))).
+  { destruct d1 as [|x1 r1]; [destruct d2 as [|x2 r2]; reflexivity|].
+    destruct d2 as [|x2 r2].
+    - rewrite app_nil_r. reflexivity.
+    - cbn [app profile_core p_maximum opt_max]. f_equal.
+      apply greatest_app_enc with (d1 := x1 :: r1) (d2 := x2 :: r2); auto; apply max_of_greatest. }
+  rewrite Hmin, Hmax. f_equal. f_equal. f_equal. lia.
+Qed.
+
+(* ---------- histogram mass ---------- *)
+Lemma filter_pos_sum (l : list (E * Z)) :
+  Forall (fun b => 0 <= snd b) l ->
+  sumz (map snd (filter (fun b => 0 <? snd b) l)) = sumz (map snd l).
+Proof.
+  induction 1 as [|b l Hb Hl IH]; [reflexivity|].
+  cbn [filter]. destruct (0 <? snd b) eqn:Hpos; cbn [map sumz fold_right]; fold (sumz (map snd l)).
+  - fold (sumz (map snd (filter (fun b => 0 <? snd b) l))). lia.
+  - lia.
+Qed.
+
+Lemma core_histogram_mass wo cnt dk d :
+  Forall (fun b => 0 <= snd b) (np_hist d) ->
+  sumz (map snd (np_hist d)) = zlen d ->
+  sumz (map snd (p_histogram (core true wo cnt dk d))) = zlen d.
+Proof.
+  intros Hpos Hsum. unfold profile_core. destruct d as [|x xs]; [reflexivity|].
+  cbn [p_histogram]. now rewrite filter_pos_sum.
+Qed.
+
+(* ---------- Counter ---------- *)
+Definition cnt_of (v : A) (l : list (A * Z)) : Z :=
+  match find (fun q => eqb v (fst q)) l with Some q => snd q | None => 0 end.
+
+Lemma bump_cnt x v l : cnt_of v (bump eqb x l) = cnt_of v l + (if eqb v x then 1 else 0).
+Proof.
+  induction l as [|[y n] l IH]; cbn [bump].
+  - unfold cnt_of. cbn [find fst snd]. destruct (eqb v x); reflexivity.
+  - destruct (eqb x y) eqn:Hxy.
+    + apply eqb_eq in Hxy. subst y. unfold cnt_of. cbn [find fst snd].
+      destruct (eqb v x); cbn [snd]; lia.
+    + unfold cnt_of in *. cbn [find fst snd]. destruct (eqb v y) eqn:Hvy.
+      * apply eqb_eq in Hvy. subst y. rewrite (eqb_sym v x), Hxy. cbn [snd]. lia.
+      * exact IH.
+Qed.
+
+Lemma bump_keys x l :
+  map fst (bump eqb x l) = if existsb (eqb x) (map fst l) then map fst l else map fst l ++ [x].
+Proof.
+  induction l as [|[y n] l IH]; cbn [bump map fst existsb]; [reflexivity|].
+  destruct (eqb x y) eqn:Hxy; cbn [orb map fst]; [reflexivity|].
+  rewrite IH. destruct (existsb (eqb x) (map fst l)); reflexivity.
+Qed.
+
+Lemma counter_snoc d x : counter eqb (d ++ [x]) = bump eqb x (counter eqb d).
+Proof. unfold counter. now rewrite fold_left_app. Qed.
+
+Lemma occ_snoc v d x : occ eqb v (d ++ [x]) = occ eqb v d + (if eqb v x then 1 else 0).
+Proof.
+  unfold occ. rewrite filter_app, zlen_app. cbn [filter]. destruct (eqb v x); reflexivity.
+Qed.
+
+Lemma counter_cnt d v : cnt_of v (counter eqb d) = occ eqb v d.
+Proof.
+  induction d as [|x d IH] using rev_ind; [reflexivity|].
+  now rewrite counter_snoc, bump_cnt, occ_snoc, IH.
+Qed.
+
+Lemma existsb_eqb_In x l : existsb (eqb x) l = true <-> In x l.
+Proof.
+  rewrite existsb_exists. split.
+  - intros (y & Hy & He). apply eqb_eq in He. now subst.
+  - intro H. exists x. split; [assumption|apply eqb_refl].
+Qed.
+
+Lemma NoDup_rev_snoc (l : list A) x : NoDup l -> ~ In x l -> NoDup (l ++ [x]).
+Proof.
+  intros Hn Hx. induction Hn as [|y l Hy Hn IH]; cbn [app].
+  - constructor; [intros []|constructor].
+  - constructor.
+    + rewrite in_app_iff. intros [H|[<-|[]]]; [contradiction|]. apply Hx. now left.
+    + apply IH. intro H. apply Hx. now right.
+Qed.
+
+Lemma counter_keys d :
+  NoDup (distinct eqb d) /\ forall v, In v (distinct eqb d) <-> In v d.
+Proof.
+  unfold distinct. induction d as [|x d [IHn IHi]] using rev_ind.
+  - split; [constructor|]. intro v. reflexivity.
+  - rewrite counter_snoc, bump_keys.
+    destruct (existsb (eqb x) (map fst (counter eqb d))) eqn:Hex.
+    + apply existsb_eqb_In in Hex. split; [assumption|].
+      intro v. rewrite in_app_iff, IHi. cbn [In]. split; [auto|].
+      intros [H|[<-|[]]]; [assumption|]. now apply IHi.
+    + assert (Hnot : ~ In x (map fst (counter eqb d))).
+      { intro H. apply existsb_eqb_In in H. congruence. }
+      split.
+      * apply NoDup_rev_snoc; assumption.
+      * intro v. rewrite !in_app_iff, IHi. reflexivity.
+Qed.
+
+(* every counter entry carries the exact number of occurrences, which is positive *)
+Lemma cnt_of_In l v n : NoDup (map fst l) -> In (v, n) l -> cnt_of v l = n.
+Proof.
+  induction l as [|[y k] l IH]; intros Hn Hin; [destruct Hin|].
+  cbn [map fst] in Hn. inversion Hn as [|? ? Hy Hn']; subst.
+  unfold cnt_of. cbn [find fst]. destruct Hin as [Heq|Hin].
+  - inversion Heq; subst. now rewrite eqb_refl.
+  - destruct (eqb v y) eqn:Hvy.
+    + apply eqb_eq in Hvy. subst y. exfalso. apply Hy. apply in_map_iff. now exists (v, n).
+    + apply IH; assumption.
+Qed.
+
+Lemma counter_entry d v n : In (v, n) (counter eqb d) -> n = occ eqb v d /\ In v d.
+Proof.
+  intro Hin. destruct (counter_keys d) as [Hn Hi]. split.
+  - rewrite <- counter_cnt. symmetry. now apply cnt_of_In.
+  - apply Hi. unfold distinct. apply in_map_iff. now exists (v, n).
+Qed.
+
+Lemma occ_pos v d : In v d -> 1 <= occ eqb v d.
+Proof.
+  unfold occ. induction d as [|x d IH]; [intros []|].
+  intros [->|Hin]; cbn [filter].
+  - rewrite eqb_refl, zlen_cons. pose proof (zlen_nonneg (filter (eqb v) d)). lia.
+  - destruct (eqb v x); [rewrite zlen_cons|]; specialize (IH Hin); lia.
+Qed.
+
+(* ---------- the stable descending sort ---------- *)
+Definition desc (p q : A * Z) : Prop := snd q <= snd p.
+
+Lemma insert_desc_perm (p : A * Z) l : Permutation (insert_desc p l) (p :: l).
+Proof.
+  induction l as [|q l IH]; cbn [insert_desc]; [reflexivity|].
+  destruct (snd p <? snd q); [|reflexivity].
+  rewrite IH. apply perm_swap.
+Qed.
+
+Lemma sort_desc_perm (l : list (A * Z)) : Permutation (sort_desc l) l.
+Proof.
+  induction l as [|p l IH]; [reflexivity|].
+  cbn [sort_desc fold_right]. fold (sort_desc l). now rewrite insert_desc_perm, IH.
+Qed.
+
+Lemma insert_desc_sorted (p : A * Z) l : StronglySorted desc l -> StronglySorted desc (insert_desc p l).
+Proof.
+  induction 1 as [|q l Hs IH Hq]; cbn [insert_desc].
+  - constructor; constructor.
+  - destruct (snd p <? snd q) eqn:Hlt.
+    + constructor; [assumption|].
+      apply Forall_forall. intros r Hr.
+      apply (Permutation_in _ (insert_desc_perm p l)) in Hr. destruct Hr as [<-|Hr].
+      * unfold desc. lia.
+      * rewrite Forall_forall in Hq. now apply Hq.
+    + constructor; [constructor; assumption|].
+      constructor; [unfold desc; lia|].
+      rewrite Forall_forall in Hq |- *. intros r Hr. specialize (Hq r Hr). unfold desc in *. lia.
+Qed.
+
+Lemma sort_desc_sorted (l : list (A * Z)) : StronglySorted desc (sort_desc l).
+Proof.
+  induction l as [|p l IH]; [constructor|].
+  cbn [sort_desc fold_right]. now apply insert_desc_sorted.
+Qed.
+
+Lemma sorted_firstn_skipn n (l : list (A * Z)) :
+  StronglySorted desc l -> forall p q, In p (firstn n l) -> In q (skipn n l) -> snd q <= snd p.
+Proof.
+  intro Hs. revert n. induction Hs as [|r l Hs IH Hr]; intros n p q Hp Hq.
+  - destruct n; destruct Hp.
+  - destruct n as [|n]; [destruct Hp|].
+    cbn [firstn skipn] in *. destruct Hp as [<-|Hp].
+    + rewrite Forall_forall in Hr. apply Hr. eapply (In_skipn n). exact Hq.
+    + eapply IH; eassumption.
+Qed.
+
+Lemma NoDup_firstn {B} n (l : list B) : NoDup l -> NoDup (firstn n l).
+Proof.
+  intro H. revert n. induction H as [|x l Hx Hn IH]; intro n; destruct n; cbn [firstn]; try constructor.
+  - intro Hin. apply Hx. now apply In_firstn in Hin.
+  - apply IH.
+Qed.
+
+(* ---------- most frequent values ---------- *)
+Lemma most_common_spec n d :
+  let m := most_common eqb n d in
+  NoDup (map fst m) /\
+  (forall v k, In (v, k) m -> k = occ eqb v d /\ In v d) /\
+  (forall v, In v d -> ~ In v (map fst m) -> forall w k, In (w, k) m -> occ eqb v d <= k) /\
+  length m = Nat.min n (length (distinct eqb d)).
+Proof.
+  unfold most_common. set (srt := sort_desc (counter eqb d)).
+  assert (Hperm : Permutation srt (counter eqb d)) by apply sort_desc_perm.
+  destruct (counter_keys d) as [Hnd Hkeys]. unfold distinct in Hnd, Hkeys.
+  assert (Hnd' : NoDup (map fst srt)).
+  { eapply Permutation_NoDup; [|exact Hnd]. apply Permutation_map. now symmetry. }
+  split; [|split; [|split]].
+  - rewrite <- firstn_map. now apply NoDup_firstn.
+  - intros v k Hin. apply In_firstn in Hin. apply (Permutation_in _ Hperm) in Hin.
+    now apply counter_entry.
+  - intros v Hv Hnot w k Hw.
+    apply Hkeys in Hv. apply in_map_iff in Hv. destruct Hv as ([v' n'] & Hfst & Hin). cbn [fst] in Hfst. subst v'.
+    destruct (counter_entry d v n' Hin) as [-> _].
+    apply (Permutation_in _ (Permutation_sym Hperm)) in Hin.
+    rewrite <- (firstn_skipn n srt) in Hin. apply in_app_or in Hin. destruct Hin as [Hin|Hin].
+    + exfalso. apply Hnot. apply in_map_iff. now exists (v, occ eqb v d).
+    + apply (sorted_firstn_skipn n srt (sort_desc_sorted _) (w, k) (v, occ eqb v d) Hw Hin).
+  - rewrite firstn_length. f_equal. unfold distinct. rewrite map_length.
+    now apply Permutation_length.
+Qed.
+
+(* ---------- the sketch ---------- *)
+Lemma insertN_length x l : length (insertN x l) = S (length l).
+Proof.
+  induction l as [|y l IH]; [reflexivity|]. cbn [insertN]. destruct (x <=? y)%N; cbn [length]; [reflexivity|].
+  now rewrite IH.
+Qed.
+
+Lemma sortN_length l : length (sortN l) = length l.
+Proof.
+  induction l as [|x l IH]; [reflexivity|]. cbn [sortN fold_right]. fold (sortN l).
+  now rewrite insertN_length, IH.
+Qed.
+
+Lemma kmv_length size d : length (kmv_of eqb hash size d) = Nat.min size (length (distinct eqb d)).
+Proof. unfold kmv_of. now rewrite firstn_length, sortN_length, map_length. Qed.
+
+Lemma core_estimate wh wo cnt dk d :
+  (d = [] <-> dk = []) ->
+  (length (distinct eqb dk) < KVM_SIZE)%nat ->
+  estimate_cardinality (profile_core leb eqb enc hash E np_hist wh wo cnt dk d) = Some (zlen (distinct eqb dk)).
+Proof.
+  intros Hnil Hlt. unfold estimate_cardinality, profile_core. destruct d as [|x xs].
+  - cbn [p_kmv empty_profile]. rewrite (proj1 Hnil eq_refl). reflexivity.
+  - cbn [p_kmv]. pose proof (kmv_length KVM_SIZE dk) as Hlen.
+    rewrite Nat.min_r in Hlen by lia.
+    destruct (kmv_of eqb hash KVM_SIZE dk) as [|h hs] eqn:Hk.
+    + cbn [length] in Hlen. unfold zlen. now rewrite <- Hlen.
+    + replace (Nat.ltb (length (h :: hs)) KVM_SIZE) with true
+        by (symmetry; apply Nat.ltb_lt; lia).
+      unfold zlen. now rewrite Hlen.
+Qed.
+
+(* ---------- order and transitions ---------- *)
+Definition enc_flags (u dn : bool) : option Z :=
+  match u, dn with
+  | false, false => None
+  | true, false => Some 1
+  | false, true => Some (-1)
+  | true, true => Some 0
+  end.
+
+Lemma ot_step_spec u dn tr last v :
+  ot_step leb eqb (enc_flags u dn, tr, last) v =
+  (enc_flags (u || ltb leb last v) (dn || ltb leb v last), tr + (if eqb v last then 0 else 1), v).
+Proof.
+  unfold ot_step. destruct (eqb v last) eqn:Heq; cbn [negb].
+  - apply eqb_eq in Heq. subst v. unfold ltb. rewrite leb_refl. cbn [negb].
+    rewrite !orb_false_r, Z.add_0_r. reflexivity.
+  - apply eqb_neq in Heq. unfold ltb.
+    destruct (leb last v) eqn:H1, (leb v last) eqn:H2.
+    + exfalso. apply Heq. now apply leb_antisym.
+    + destruct u, dn; reflexivity.
+    + destruct u, dn; reflexivity.
+    + destruct (leb_total last v); congruence.
+Qed.
+
+Lemma ot_fold xs : forall u dn tr last,
+  fst (fold_left (ot_step leb eqb) xs (enc_flags u dn, tr, last)) =
+  (enc_flags (u || has_up leb last xs) (dn || has_down leb last xs), tr + trans_count eqb last xs).
+Proof.
+  induction xs as [|v xs IH]; intros u dn tr last; cbn [fold_left has_up has_down trans_count].
+  - now rewrite !orb_false_r, Z.add_0_r.
+  - rewrite ot_step_spec, IH. rewrite !orb_assoc. f_equal. lia.
+Qed.
+
+Lemma order_transitions_spec x xs :
+  order_transitions leb eqb x xs = (order_spec leb x xs, trans_count eqb x xs).
+Proof.
+  unfold order_transitions. change (@None Z) with (enc_flags false false).
+  rewrite ot_fold. cbn [orb]. unfold order_spec, enc_flags. rewrite Z.add_0_l.
+  destruct (has_up leb x xs), (has_down leb x xs); reflexivity.
+Qed.
+
+(* transitions counts the adjacent pairs that differ; a rise / fall is such a pair *)
+Lemma core_order_transitions wh cnt dk x xs :
+  let p := profile_core leb eqb enc hash E np_hist wh true cnt dk (x :: xs) in
+  p_order p = order_spec leb x xs /\ p_transitions p = trans_count eqb x xs.
+Proof. cbn [profile_core p_order p_transitions]. rewrite order_transitions_spec. now split. Qed.
+End Generic.
+
+(* ---------- batching (TableProfile.from_dataframe) ---------- *)
+Lemma chunks_concat {X} n : (0 < n)%nat ->
+  forall fuel (l : list X), (length l <= fuel)%nat -> concat (chunks fuel n l) = l.
+Proof.
+  intros Hn fuel. induction fuel as [|f IH]; intros l Hl.
+  - destruct l; [reflexivity|cbn [length] in Hl; lia].
+  - destruct l as [|x l]; [reflexivity|].
+    cbn [chunks concat]. rewrite IH.
+    + apply firstn_skipn.
+    + rewrite skipn_length. cbn [length] in *. lia.
+Qed.
+
+Lemma chunks_nil_iff {X} fuel n (l : list X) : (length l <= fuel)%nat -> (chunks fuel n l = [] <-> l = []).
+Proof.
+  intro Hl. destruct fuel as [|f].
+  - destruct l; [split; reflexivity|cbn [length] in Hl; lia].
+  - destruct l; cbn [chunks]; split; try reflexivity; discriminate.
+Qed.
+
+Section Frame.
+Variables (A E X : Type) (eqb : A -> A -> bool) (hist_merge : list (E * Z) -> list (E * Z) -> list (E * Z)).
+Variable prof : list X -> profile A E.
+(* the profiler is additive on the four fields *)
+Hypothesis prof_additive :
+  forall c1 c2, quad (prof (c1 ++ c2)) = quad_add (quad (prof c1)) (quad (prof c2)).
+
+Lemma fold_add_quad bs : forall p c0,
+  quad p = quad (prof c0) ->
+  quad (fold_left (add eqb E hist_merge) (map prof bs) p) = quad (prof (c0 ++ concat bs)).
+Proof.
+  induction bs as [|b bs IH]; intros p c0 Hp; cbn [map fold_left concat].
+  - now rewrite app_nil_r.
+  - rewrite app_assoc. apply IH.
+    rewrite quad_add_spec, Hp. symmetry. apply prof_additive.
+Qed.
+
+Lemma profile_frame_quad c :
+  (0 < BATCH_SIZE) ->
+  match profile_frame eqb E hist_merge prof c with
+  | None => c = []
+  | Some p => c <> [] /\ quad p = quad (prof c)
+  end.
+Proof.
+  intro Hb. unfold profile_frame.
+  assert (Hn : (0 < Z.to_nat BATCH_SIZE)%nat) by lia.
+  pose proof (chunks_concat _ Hn (length c) c (le_n _)) as Hcat.
+  pose proof (chunks_nil_iff (length c) (Z.to_nat BATCH_SIZE) c (le_n _)) as Hnil.
+  destruct (chunks (length c) (Z.to_nat BATCH_SIZE) c) as [|b bs]; cbn [map].
+  - now apply Hnil.
+  - split.
+    + intro H. apply Hnil in H. discriminate.
+    + cbn [concat] in Hcat. rewrite <- Hcat. now apply fold_add_quad.
+Qed.
+End Frame.
+
+(* ---------- numbers ---------- *)
+Lemma Z_total_order : total_order Z.leb Z.eqb.
+Proof.
+  repeat split.
+  - apply Z.eqb_eq.
+  - intros ->. apply Z.eqb_refl.
+  - intros a b. destruct (Z.leb_spec a b); [now left|right; apply Z.leb_le; lia].
+  - intros a b c H1 H2. apply Z.leb_le in H1, H2. apply Z.leb_le. lia.
+  - intros a b H1 H2. apply Z.leb_le in H1, H2. lia.
+Qed.
+
+Lemma trunc_mono scale : 0 < scale -> forall a b, True -> True -> Z.leb a b = true -> trunc_z scale a <= trunc_z scale b.
+Proof.
+  intros Hs a b _ _ H. apply Z.leb_le in H. unfold trunc_z. now apply Z.quot_le_mono.
+Qed.
+
+Lemma Forall_True {B} (l : list B) : Forall (fun _ => True) l.
+Proof. induction l; constructor; auto. Qed.
+
+(* int() truncates toward zero: the result is the integer part, of the same sign *)
+Lemma trunc_toward_zero scale z : 0 < scale ->
+  Z.abs (trunc_z scale z) * scale <= Z.abs z < (Z.abs (trunc_z scale z) + 1) * scale /\
+  (0 <= z -> 0 <= trunc_z scale z) /\ (z <= 0 -> trunc_z scale z <= 0).
+Proof.
+  intro Hs. unfold trunc_z.
+  pose proof (Z.quot_rem z scale ltac:(lia)) as Hqr.
+  pose proof (Z.rem_bound_pos (Z.abs z) scale ltac:(lia) Hs) as Hb.
+  destruct (Z_le_gt_dec 0 z) as [Hz|Hz].
+  - pose proof (Z.quot_pos z scale Hz Hs).
+    pose proof (Z.rem_bound_pos z scale Hz Hs). repeat split; try lia; nia.
+  - assert (Hneg : z = - (- z)) by lia.
+    pose proof (Z.quot_opp_l (-z) scale ltac:(lia)) as Hq. rewrite <- Hneg in Hq.
+    pose proof (Z.quot_pos (-z) scale ltac:(lia) Hs) as Hp.
+    pose proof (Z.quot_rem (-z) scale ltac:(lia)) as Hqr'.
+    pose proof (Z.rem_bound_pos (-z) scale ltac:(lia) Hs) as Hb'.
+    repeat split; try lia; nia.
+Qed.
+
+(* ---------- the profilers without extremes ---------- *)
+Lemma profile_bool_quad {E} (c : list (option bool)) :
+  quad (@profile_bool E c) = (zlen c, zlen (filter is_none c), None, None).
+Proof.
+  unfold profile_bool. rewrite nonnull_missing. destruct (nonnull c); reflexivity.
+Qed.
+
+Lemma filter_none_app {B} (a b : list (option B)) :
+  zlen (filter is_none (a ++ b)) = zlen (filter is_none a) + zlen (filter is_none b).
+Proof. now rewrite filter_app, zlen_app. Qed.
+
+Lemma profile_bool_additive {E} (c1 c2 : list (option bool)) :
+  quad (@profile_bool E (c1 ++ c2)) = quad_add (quad (@profile_bool E c1)) (quad (@profile_bool E c2)).
+Proof.
+  rewrite !profile_bool_quad. unfold quad_add. rewrite zlen_app, filter_none_app. reflexivity.
+Qed.
+
+Lemma profile_bool_mfv {E} (c : list (option bool)) :
+  nonnull c <> [] ->
+  p_mfv (@profile_bool E c) = [(true, occ Bool.eqb true (nonnull c)); (false, occ Bool.eqb false (nonnull c))].
+Proof. unfold profile_bool. destruct (nonnull c) eqn:H; [congruence|]. reflexivity. Qed.
+
+Lemma occ_bool_total (d : list bool) : occ Bool.eqb true d + occ Bool.eqb false d = zlen d.
+Proof.
+  unfold occ. induction d as [|b d IH]; [reflexivity|].
+  cbn [filter]. destruct b; cbn [Bool.eqb]; rewrite !zlen_cons; lia.
+Qed.
+
+Lemma profile_plain_additive {V E B} (c1 c2 : list (option B)) :
+  quad (@profile_plain V E B (c1 ++ c2)) = quad_add (quad (@profile_plain V E B c1)) (quad (@profile_plain V E B c2)).
+Proof. unfold profile_plain, quad, quad_add. cbn. now rewrite zlen_app, filter_none_app. Qed.
+
+Lemma profile_default_additive {V E} (c1 c2 : list ucell) :
+  quad (@profile_default V E (c1 ++ c2)) = quad_add (quad (@profile_default V E c1)) (quad (@profile_default V E c2)).
+Proof. unfold profile_default, quad, quad_add. cbn. now rewrite filter_app, !zlen_app. Qed.
+
+(* ---------- the sketch of a sum (ColumnProfile.__add__), hash injective on the sample ---------- *)
+Lemma insertN_perm x l : Permutation (insertN x l) (x :: l).
+Proof.
+  induction l as [|y l IH]; cbn [insertN]; [reflexivity|].
+  destruct (x <=? y)%N; [reflexivity|]. rewrite IH. apply perm_swap.
+Qed.
+
+Lemma sortN_perm l : Permutation (sortN l) l.
+Proof.
+  induction l as [|x l IH]; [reflexivity|]. cbn [sortN fold_right]. fold (sortN l).
+  now rewrite insertN_perm, IH.
+Qed.
+
+Lemma existsb_Neqb_In x l : existsb (N.eqb x) l = true <-> In x l.
+Proof.
+  rewrite existsb_exists. split.
+  - intros (y & Hy & He). apply N.eqb_eq in He. now subst.
+  - intro H. exists x. split; [assumption|apply N.eqb_refl].
+Qed.
+
+Lemma dedupN_spec l : NoDup (dedupN l) /\ forall x, In x (dedupN l) <-> In x l.
+Proof.
+  induction l as [|y l [IHn IHi]]; [split; [constructor|tauto]|].
+  cbn [dedupN]. destruct (existsb (N.eqb y) l) eqn:Hex.
+  - apply existsb_Neqb_In in Hex. split; [assumption|]. intro x. rewrite IHi. cbn [In].
+    split; [auto|intros [<-|H]; auto].
+  - assert (Hnot : ~ In y l) by (intro H; apply existsb_Neqb_In in H; congruence).
+    split.
+    + constructor; [now rewrite IHi|assumption].
+    + intro x. cbn [In]. now rewrite IHi.
+Qed.
+
+Lemma NoDup_map_inj_in {B C} (f : B -> C) (l : list B) :
+  (forall a b, In a l -> In b l -> f a = f b -> a = b) -> NoDup l -> NoDup (map f l).
+Proof.
+  intros Hinj Hn. induction Hn as [|x l Hx Hn IH]; cbn [map]; constructor.
+  - intro H. apply in_map_iff in H. destruct H as (y & Hy & Hin).
+    assert (y = x) by (apply Hinj; [now right|now left|assumption]). subst. contradiction.
+  - apply IH. intros a b Ha Hb. apply Hinj; now right.
+Qed.
+
+Section SketchSum.
+Variable A : Type.
+Variable leb : A -> A -> bool.
+Variable eqb : A -> A -> bool.
+Variable enc : A -> Z.
+Variable hash : A -> N.
+Variable E : Type.
+Variable np_hist : list A -> list (E * Z).
+Variable hist_merge : list (E * Z) -> list (E * Z) -> list (E * Z).
+Hypothesis ord : total_order leb eqb.
+
+Lemma distinct_app_incl d1 d2 :
+  (length (distinct eqb d1) <= length (distinct eqb (d1 ++ d2)))%nat /\
+  (length (distinct eqb d2) <= length (distinct eqb (d1 ++ d2)))%nat.
+Proof.
+  destruct (counter_keys A leb eqb ord d1) as [N1 I1].
+  destruct (counter_keys A leb eqb ord d2) as [N2 I2].
+  destruct (counter_keys A leb eqb ord (d1 ++ d2)) as [N12 I12].
+  split; apply NoDup_incl_length; auto; intros x Hx; apply I12, in_or_app;
+    [left; now apply I1|right; now apply I2].
+Qed.
+
+Lemma kmv_small d : (length (distinct eqb d) < KVM_SIZE)%nat ->
+  kmv_of eqb hash KVM_SIZE d = sortN (map hash (distinct eqb d)).
+Proof.
+  intro H. unfold kmv_of. apply firstn_all2. rewrite sortN_length, map_length. lia.
+Qed.
+
+Lemma sum_estimate wh wo c1 c2 dk1 dk2 d1 d2 :
+  (d1 = [] <-> dk1 = []) -> (d2 = [] <-> dk2 = []) -> dk1 <> [] -> dk2 <> [] ->
+  (forall a b, In a (dk1 ++ dk2) -> In b (dk1 ++ dk2) -> hash a = hash b -> a = b) ->
+  (length (distinct eqb (dk1 ++ dk2)) < KVM_SIZE)%nat ->
+  estimate_cardinality
+    (add eqb E hist_merge (profile_core leb eqb enc hash E np_hist wh wo c1 dk1 d1)
+                          (profile_core leb eqb enc hash E np_hist wh wo c2 dk2 d2))
+  = Some (zlen (distinct eqb (dk1 ++ dk2))).
+Proof.
+  intros Hn1 Hn2 Hne1 Hne2 Hinj Hlt.
+  destruct (distinct_app_incl dk1 dk2) as [L1 L2].
+  destruct (counter_keys A leb eqb ord dk1) as [N1 I1].
+  destruct (counter_keys A leb eqb ord dk2) as [N2 I2].
+  destruct (counter_keys A leb eqb ord (dk1 ++ dk2)) as [N12 I12].
+  assert (K1 : p_kmv (profile_core leb eqb enc hash E np_hist wh wo c1 dk1 d1) = sortN (map hash (distinct eqb dk1))).
+  { unfold profile_core. destruct d1 as [|x xs]; [exfalso; apply Hne1; now apply Hn1|].
+    cbn [p_kmv]. apply kmv_small. lia. }
+  assert (K2 : p_kmv (profile_core leb eqb enc hash E np_hist wh wo c2 dk2 d2) = sortN (map hash (distinct eqb dk2))).
+  { unfold profile_core. destruct d2 as [|x xs]; [exfalso; apply Hne2; now apply Hn2|].
+    cbn [p_kmv]. apply kmv_small. lia. }
+  set (k1 := sortN (map hash (distinct eqb dk1))) in *.
+  set (k2 := sortN (map hash (distinct eqb dk2))) in *.
+  assert (Hk1 : k1 <> []).
+  { intro H. apply (f_equal (@length N)) in H. unfold k1 in H. rewrite sortN_length, map_length in H.
+    destruct dk1 as [|x r]; [congruence|]. assert (In x (distinct eqb (x :: r))) by (apply I1; now left).
+    destruct (distinct eqb (x :: r)); [contradiction|discriminate]. }
+  assert (Hk2 : k2 <> []).
+  { intro H. apply (f_equal (@length N)) in H. unfold k2 in H. rewrite sortN_length, map_length in H.
+    destruct dk2 as [|x r]; [congruence|]. assert (In x (distinct eqb (x :: r))) by (apply I2; now left).
+    destruct (distinct eqb (x :: r)); [contradiction|discriminate]. }
+  (* the merged sketch has one hash per distinct value *)
+  assert (Hlen : length (dedupN (k1 ++ k2)) = length (distinct eqb (dk1 ++ dk2))).
+  { destruct (dedupN_spec (k1 ++ k2)) as [Nd Id].
+    rewrite <- (map_length hash (distinct eqb (dk1 ++ dk2))).
+    apply Permutation_length. apply NoDup_Permutation; [assumption| |].
+    - apply NoDup_map_inj_in; [|assumption].
+      intros a b Ha Hb. apply Hinj; now apply I12.
+    - intro h. rewrite Id, in_app_iff. unfold k1, k2.
+      rewrite (in_map_iff hash (distinct eqb (dk1 ++ dk2))).
+      split.
+      + intros [H|H]; apply (Permutation_in _ (sortN_perm _)) in H; apply in_map_iff in H;
+          destruct H as (a & <- & Ha); exists a; split; auto; apply I12, in_or_app;
+          [left; now apply I1|right; now apply I2].
+      + intros (a & <- & Ha). apply I12, in_app_or in Ha. destruct Ha as [Ha|Ha]; [left|right];
+          apply (Permutation_in _ (Permutation_sym (sortN_perm _))); apply in_map; [now apply I1|now apply I2]. }
+  unfold estimate_cardinality, add. cbn [p_kmv]. rewrite K1, K2.
+  destruct k1 as [|h1 t1] eqn:E1; [congruence|]. destruct k2 as [|h2 t2] eqn:E2; [congruence|].
+  cbn [is_nil orb]. rewrite <- E1, <- E2 in *.
+  assert (Hm : length (firstn KVM_SIZE (sortN (dedupN (k1 ++ k2)))) = length (distinct eqb (dk1 ++ dk2))).
+  { rewrite firstn_length, sortN_length, Hlen. lia. }
+  destruct (firstn KVM_SIZE (sortN (dedupN (k1 ++ k2)))) as [|h t] eqn:Ef.
+  - cbn [length] in Hm. unfold zlen. now rewrite <- Hm.
+  - replace (Nat.ltb (length (h :: t)) KVM_SIZE) with true by (symmetry; apply Nat.ltb_lt; lia).
+    unfold zlen. now rewrite Hm.
+Qed.
+End SketchSum.
